@@ -54,6 +54,21 @@ CLAIMED.update({
         tech="deterministic simulation with virtual clock: reference-model (three-valued filter) comparison of every query answer"),
 })
 
+CLAIMED.update({
+    "C13": dict(cat="exploration", ref="DESIGN.md §3 C13",
+        text="The real OwnerAPIHandlerV3 is driven in-process (api::Handler::post with in-memory bodies) by seeded sessions mixing a legitimate client and an attacker on the wire. A small session model tracks the current key (result of the last successful key exchange); every request the model classifies as not authenticated under it must be answered with an error, must leave the wallet directory digest, open/closed state and active account unchanged and must not echo wallet data; every authenticated call must be answered under the same key.",
+        tech="deterministic simulation: in-process JSON-RPC session fuzzing against a session-key reference model, state-digest and reply oracles"),
+    "C14": dict(cat="exploration", ref="DESIGN.md §3 C14",
+        text="Seeded histories on masked wallets with token-taking owner methods called under six token classes at arbitrary states and after close_wallet; wrong tokens must fail for every key-deriving / state-changing method and never change the directory digest; the whole explicit trace is then replayed in an unmasked twin world in the same process and step outcomes plus a canonical end-state projection must agree.",
+        tech="deterministic simulation: token-class injection + counterfactual unmasked twin replay of the same trace"),
+    "C16": dict(cat="exploration", ref="DESIGN.md §3 C16",
+        text="Seeded multi-account histories (incl. cancel-after-broadcast and reorgs on the real chain) followed by restore-from-mnemonic + scan, and by stored-state divergences injected through the backend (deleted / wrongly spent / wrongly locked / stale unconfirmed records) + scan + scan again; the result is compared with the simulator's own range-proof rewind of the UTXO set (value, height, coinbase flag, lock height, account), the restored spendable total with the chain's, and the second scan must change nothing. The scan batch size is a randomised knob so batch boundaries are crossed.",
+        tech="deterministic simulation: stored-state fault injection + restore, chain-truth reference oracle, idempotence check, randomised batch-size knob"),
+    "C18": dict(cat="exploration", ref="DESIGN.md §3 C18",
+        text="Seeded histories in which forks of the real chain are aimed at the block holding a payment the wallet has reported confirmed (depth, inclusion and re-adding drawn), with refreshes, scans, sends and re-mining at arbitrary points; after a scan on a chain without the kernel the entry must be reverted and its outputs unspendable and uncounted, totals must not exceed the chain's truth (orphaned coinbases), a reverted output must never be selected while off chain, and a re-mined payment must be re-confirmed by an ordinary refresh.",
+        tech="deterministic simulation: real-chain reorg injection aimed at receiving blocks, revert/reconfirm oracle against chain truth"),
+})
+
 NOT_YET = {
     "C08": "not applicable to this technique: encode/decode round-trips are pure functions of their input (no schedule, clock, fault, crash point or second party); deciding them needs structural input generation or proof, see DESIGN.md §4",
 }
